@@ -212,8 +212,8 @@ Lemma has_get_add (rs : list (string * req)) : forall (m : reqs) k0 v,
   has (get (add m rs) k0) v =
   has (get m k0) v && forallb (fun kr => negb (String.eqb k0 (fst kr)) || has (snd kr) v) rs.
 Proof.
-  unfold add. induction rs as [|[k r] rs IH]; intros m k0 v; simpl; [rewrite andb_true_r; reflexivity|].
-  rewrite IH, get_add1. destruct (String.eqb k0 k); simpl.
+  unfold add. induction rs as [|[k r] rs IH]; intros m k0 v; cbn [fold_left forallb fst snd]; [rewrite andb_true_r; reflexivity|].
+  rewrite IH, get_add1. destruct (String.eqb k0 k); cbn [negb orb].
   - rewrite (andb_comm (has r v)), andb_assoc. reflexivity.
   - reflexivity.
 Qed.
@@ -250,17 +250,12 @@ Proof.
 Qed.
 
 (* keys of a Requirements value built by Add are unique, so membership and lookup agree *)
-Lemma term_reqs_nodup t : nodup_keys (term_reqs t).
-Proof.
-  unfold term_reqs. apply (add_inv (map expr_req t) []); [|exact empty_inv].
-  apply Forall_forall. intros [k r] _. exact I.
-Qed.
-
-(* wf is not needed for uniqueness of keys; a variant of add_inv for the keys only *)
 Lemma nodup_add1 m kr : nodup_keys m -> nodup_keys (add1 m kr).
 Proof. destruct kr as [k r]. unfold add1. intros H. destruct (find k m); apply nodup_set, H. Qed.
 Lemma nodup_add rs : forall m, nodup_keys m -> nodup_keys (add m rs).
-Proof. unfold add. induction rs as [|kr rs IH]; intros m H; simpl; [exact H|]. apply IH, nodup_add1, H. Qed.
+Proof. unfold add. induction rs as [|kr rs IH]; intros m H; cbn [fold_left]; [exact H|]. apply IH, nodup_add1, H. Qed.
+Lemma term_reqs_nodup t : nodup_keys (term_reqs t).
+Proof. unfold term_reqs. apply nodup_add. constructor. Qed.
 
 Lemma in_reqs_get (m : reqs) k r : nodup_keys m -> List.In (k, r) m -> get m k = r.
 Proof. intros Hn Hin. unfold get. rewrite (In_find k r m Hn Hin). reflexivity. Qed.
@@ -382,7 +377,7 @@ Proof.
   assert (Hr : List.In i remaining). { destruct sf; [discriminate|]. rewrite E. exact Hi. }
   unfold remaining in Hr. apply in_flat_map in Hr as (g & Hg & Hin).
   destruct (group_remaining_sound _ _ _ _ _ _ _ _ _ Hin) as (H1 & H2 & H3 & H4).
-  split; [exact H1|]. split; [exact H3|]. exists g. repeat split; assumption.
+  split; [exact H1|]. split; [exact H3|]. exists g. split; [exact Hg|]. split; [exact H2|exact H4].
 Qed.
 
 (* ================================================================== NodeClaim steps *)
@@ -413,7 +408,7 @@ Proof.
   split. { destruct rem; [congruence|discriminate]. }
   intros name Hn. apply in_map_iff in Hn as (i & <- & Hi).
   destruct (Hall i Hi) as (H1 & H2 & g & Hg & Hd & Ho).
-  split; [exact H1|]. exists i, g. repeat split; assumption.
+  split; [exact H1|]. exists i, g. split; [exact H2|]. split; [reflexivity|]. split; [exact Hg|]. split; [exact Hd|exact Ho].
 Qed.
 
 (* running any sequence of scheduler steps against one claim *)
@@ -450,6 +445,9 @@ Proof. unfold rsum. induction ls as [|x ls IH]; simpl; [lia|]. rewrite IH. lia. 
 Lemma has_key_set_minv r u k : has_key (set_minv r u) k = has_key r k.
 Proof. unfold has_key. rewrite find_set_minv. destruct (find k r); reflexivity. Qed.
 
+Lemma forallb_ext {A} (f g : A -> bool) l : (forall x, f x = g x) -> forallb f l = forallb g l.
+Proof. intros H. induction l as [|x l IH]; simpl; [reflexivity|]. rewrite H, IH. reflexivity. Qed.
+
 Definition same_but_minv (a b : req) : Prop := compl a = compl b /\ vals a = vals b /\ gte a = gte b /\ lte a = lte b.
 
 Lemma has_intersection_minv a a' b : same_but_minv a a' -> has_intersection a b = has_intersection a' b.
@@ -476,7 +474,7 @@ Proof. unfold set_minv. rewrite map_map. apply map_ext. intros [k x]. simpl. des
 Lemma in_set_minv r u k x' : List.In (k, x') (set_minv r u) -> exists x, List.In (k, x) r /\ same_but_minv x x'.
 Proof.
   unfold set_minv. rewrite in_map_iff. intros ([k0 x] & E & Hin). simpl in E.
-  destruct (List.find _ u); inversion E; subst; exists x; (split; [exact Hin|repeat split; reflexivity]).
+  exists x. destruct (List.find _ u); injection E as Ek Ex; subst k0; rewrite <- Ex; (split; [exact Hin|repeat split; reflexivity]).
 Qed.
 
 Lemma compatible_set_minv wk r u o : nodup_keys r -> compatible wk (set_minv r u) o = compatible wk r o.
@@ -497,7 +495,7 @@ Lemma intersects_set_minv a r u : nodup_keys r -> intersects a (set_minv r u) = 
 Proof.
   intros Hnd. unfold intersects. apply forallb_ext. intros [k ex].
   pose proof (find_set_minv_same r u k) as S.
-  destruct (find k r) as [x|], (find k (set_minv r u)) as [x'|]; try destruct S; try reflexivity.
+  destruct (find k r) as [x|], (find k (set_minv r u)) as [x'|]; try contradiction; try reflexivity.
   rewrite (has_intersection_minv_r ex x x' S), (sat_undefined_minv x x' S). reflexivity.
 Qed.
 
@@ -519,17 +517,18 @@ Lemma nc_step_preserves wk cat all rx n p :
   nc_wf (fst (nc_step wk cat all rx n p)) /\ nc_inv wk cat (fst (nc_step wk cat all rx n p)).
 Proof.
   intros [Wn Wg] [Wp Wt] (I1 & I2 & I3). unfold nc_step.
-  destruct (nc_can_add wk cat all rx n p) as [[r its]|e] eqn:C; simpl; [|split; [split; assumption|repeat split; assumption]].
+  destruct (nc_can_add wk cat all rx n p) as [[r its]|e] eqn:C; cbn [fst]; [|split; [split; assumption|split; [exact I1|split; [exact I2|exact I3]]]].
   destruct (nc_can_add_ok _ _ _ _ _ _ _ _ C) as (HT & HC & HR & Hne & Hits).
   destruct (nc_can_add_reqs_eq _ _ _ _ _ _ _ _ C) as (u & Er).
   assert (Wstep : nodup_keys (step_reqs all n p)) by (apply nodup_add, Wn).
   assert (Wr : nodup_keys r).
   { rewrite Er. destruct rx; [|exact Wstep]. unfold nodup_keys. rewrite set_minv_keys. exact Wstep. }
+  unfold nc_add. unfold nc_wf, nc_inv. cbn [nc_requests nc_pods nc_reqs nc_its nc_groups nc_taints].
   split.
-  { split; [exact Wr|]. simpl. intros g Hg. apply in_map_iff in Hg as (g0 & <- & Hg0). simpl. apply Wg, Hg0. }
+  { split; [exact Wr|]. intros g Hg. apply in_map_iff in Hg as (g0 & <- & Hg0). cbn [dg_overhead]. apply Wg, Hg0. }
   split; [|split].
-  - intros k. simpl. rewrite map_app, rsum_app, rget_rmerge, I1 by exact Wp. reflexivity.
-  - intros q Hq. simpl in Hq. apply in_app_or in Hq as [Hq|[<-|[]]]; simpl.
+  - intros k. rewrite map_app. cbn [map]. rewrite rsum_app, rget_rmerge, I1 by exact Wp. reflexivity.
+  - intros q Hq. apply in_app_or in Hq as [Hq|[<-|[]]].
     + destruct (I2 q Hq) as [Ht Hv]. split; [exact Ht|].
       intros k v Hh. rewrite HR in Hh. unfold step_reqs in Hh. apply add_narrows in Hh. apply (Hv k v Hh).
     + split; [apply tolerates_all_k8s, HT|].
@@ -537,11 +536,11 @@ Proof.
       assert (Hp : has (get (pod_reqs all p) k) v = true).
       { rewrite has_get_add in Hh. apply andb_prop in Hh as [_ Hh].
         unfold get. destruct (find k (pod_reqs all p)) as [x|] eqn:F; [|reflexivity].
-        rewrite forallb_forall in Hh. specialize (Hh (k, x) (find_In _ _ _ F)). simpl in Hh. rewrite String.eqb_refl in Hh. exact Hh. }
+        rewrite forallb_forall in Hh. specialize (Hh (k, x) (find_In _ _ _ F)). cbn [fst snd] in Hh. rewrite String.eqb_refl in Hh. exact Hh. }
       destruct (pod_reqs_sound all p k v Hp) as [S1 S2]. split; [exact S1|].
       intros t rest E o vs Hin. apply (S2 t rest E (Wt t rest E) o vs Hin).
-  - intros _ name Hn. simpl in Hn. destruct (Hits name Hn) as (_ & i & g & Hi & Hnm & Hg & Hd & Hc & Hcomp & alloc & offs & o & Ha & Ho & Hco & Hf).
-    exists i, (mkDG (dg_its g) (dg_overhead g) (uset (dg_ports g) (p_key p) (p_ports p))), alloc, offs, o. simpl.
+  - intros _ name Hn. destruct (Hits name Hn) as (_ & i & g & Hi & Hnm & Hg & Hd & Hc & Hcomp & alloc & offs & o & Ha & Ho & Hco & Hf).
+    exists i, (mkDG (dg_its g) (dg_overhead g) (uset (dg_ports g) (p_key p) (p_ports p))), alloc, offs, o. cbn [dg_its dg_overhead].
     assert (Ecomp : forall oo, compatible wk r oo = compatible wk (step_reqs all n p) oo).
     { intros oo. rewrite Er. destruct rx; [apply compatible_set_minv, Wstep|reflexivity]. }
     assert (Eint : it_compatible i r = it_compatible i (step_reqs all n p)).
@@ -639,7 +638,7 @@ Proof.
       assert (Hp : has (get (pod_reqs all p) k) v = true).
       { rewrite has_get_add in Hh. apply andb_prop in Hh as [_ Hh].
         unfold get. destruct (find k (pod_reqs all p)) as [x|] eqn:Fk; [|reflexivity].
-        rewrite forallb_forall in Hh. specialize (Hh (k, x) (find_In _ _ _ Fk)). simpl in Hh. rewrite String.eqb_refl in Hh. exact Hh. }
+        rewrite forallb_forall in Hh. specialize (Hh (k, x) (find_In _ _ _ Fk)). cbn [fst snd] in Hh. rewrite String.eqb_refl in Hh. exact Hh. }
       destruct (pod_reqs_sound all p k v Hp) as [S1 S2]. split; [exact S1|].
       intros t rest E o vs Hin. apply (S2 t rest E (Wt t rest E) o vs Hin).
 Qed.
